@@ -193,6 +193,24 @@ PROPS = {
         assumptions=COMMON_ASSUME + ["all areas of the generated tables load defaults (so the invariant holds initially); tables with always-fail registers get no sanitise/corrupt steps (the property's restriction)"],
         targets=[rc("rc", ["props/C05_rc.cpp"], 600, 20000, qs=8, ts=16, max_size=100)],
     ),
+    "C08": dict(
+        level="exploration",
+        exhaustive_possible=False,
+        rule="cases are (emit entry point, transport, memory width, request kind, sequence, address, size/value, payload) tuples; oracle = octets of a reference encoder written from "
+             "doc/regp.txt + the library's own receiver reports identical fields; non-trivial = a frame with payload (rich in SLIP control octets) or a non-zero response code, or a length "
+             "across a varint boundary; distinct by the serialised case",
+        assumptions=COMMON_ASSUME + ["the reference encoder follows doc/regp.txt; where the document is silent (block-size field of payload-less responses) it follows the library's emitter"],
+        targets=[enum("enum", ["props/C08_enum.cpp"], qs=8, ts=16)],
+    ),
+    "C06": dict(
+        level="exploration",
+        exhaustive_possible=False,
+        rule="cases are sessions (sequences of 1..8 valid frames on one instance) judged per frame by the recording back-end (number of accesses, arguments, write payload), a reference "
+             "decoder on the reply octets and the allocation ledger; non-trivial = a request with block size >= 2, a non-ACK back-end verdict or a word-size mismatch; distinct by frame "
+             "octets x verdict x configuration",
+        assumptions=COMMON_ASSUME + ["block sizes stay within the receive block's true capacity (beyond is C09's subject); return codes of regp_process are not asserted"],
+        targets=[rc("rc", ["props/C06_rc.cpp"], 2500, 100000, qs=8, ts=16, max_size=100)],
+    ),
 }
 
 NOTE_COMMON = ("trusted: clang/ASan/UBSan, the harness and its reference model; the search is bounded (see evidence: tier bounds and counts); "
@@ -324,6 +342,22 @@ MANIFEST_TEXT = {
         level_text="Random histories of checked operations with operands biased to constraint bounds run against the real table and the flat model in lock step; equality of all storage "
                    "and touched marks, no change on refusal, and the constraint invariant are asserted after every step, and sanitise is checked after arbitrary out-of-band corruption. "
                    "Failing histories shrink by deleting operations.",
+        level_note=NOTE_COMMON,
+    ),
+    "C08": dict(
+        engine="enum + random",
+        technique="differential testing of all emit entry points against a reference encoder (doc/regp.txt) + round trip through the library's own receiver",
+        level_text="Every emit entry point is exercised on both transports and memory widths over a boundary grid and random parameters (payloads rich in SLIP control octets, frame lengths "
+                   "across the varint prefix boundaries); the emitted octets must equal the reference encoder's, the peer's regp_recv must accept them and report the same fields, and request "
+                   "sequence numbers must increase by one modulo 2^16 over a 70000-request session.",
+        level_note=NOTE_COMMON,
+    ),
+    "C06": dict(
+        engine="rapidcheck (sessions)",
+        technique="rapidcheck-generated protocol sessions against a recording memory back-end and an independent reference decoder (doc/regp.txt), with shrinking",
+        level_text="Sessions of valid frames (all request kinds, word-size mismatches, responses and meta messages interleaved) run through regp_recv/regp_process/regp_free on both "
+                   "transports and memory widths with every back-end verdict; the back-end records every access with a copy of the payload, the reply octets are decoded by the "
+                   "reference implementation of the protocol document and compared field by field with the prescribed response.",
         level_note=NOTE_COMMON,
     ),
 }
